@@ -13,6 +13,7 @@ import (
 	"github.com/hprose/hprose-golang/v3/rpc/plugins/loadbalance"
 	"github.com/hprose/hprose-golang/v3/rpc/socket"
 	"github.com/hprose/hprose-golang/v3/rpc/udp"
+	"github.com/hprose/hprose-golang/v3/rpc/websocket"
 )
 
 type gcase struct {
@@ -70,6 +71,12 @@ func run(c *gcase) (o gobs) {
 	case "udp_parseHeader":
 		l, i, ok := udp.VerifParseHeader(h)
 		o.Out = []int64{int64(l), int64(i), b2i(ok)}
+	case "ws_makeHeader":
+		x := websocket.VerifMakeHeader(c.I)
+		o.Out = bytesOut(x[:])
+	case "ws_parseHeader":
+		i, ok := websocket.VerifParseHeader(h)
+		o.Out = []int64{int64(i), b2i(ok)}
 	case "io_utf16Length":
 		o.Out = []int64{int64(hio.VerifUTF16Length(string(h)))}
 	case "lb_gcd":
